@@ -303,7 +303,13 @@ func (p *peer) serveStream(reconnectCount int, backoff *time.Timer) (err error) 
 	if err != nil {
 		return err
 	}
-	return s.serve()
+	err = s.serve()
+	if err == nil {
+		// The stream has ended although the peer has not been stopped (the caller checks that first):
+		// whatever ended it (also a plain io.EOF), it has to be re-established.
+		err = errors.New("event stream closed")
+	}
+	return err
 }
 
 func (s *stream) serve() error {
@@ -369,7 +375,7 @@ func (s *stream) sendEvents() {
 			return
 		}
 		for _, v := range events {
-			err := s.client.Send(v)
+			err = s.client.Send(v)
 			if err != nil {
 				return
 			}
